@@ -52,6 +52,9 @@ func EncodeAddress(ops []byte, addr []byte, addrLen int, val int, add int) []byt
 			return toInst(ops, addr)
 		}
 		if opsNew, ok := opExpand[uint32(ops[0])]; ok {
+			if isInt32Overflow(int64(int8(val)) + int64(add) - int64(4-addrLen) - int64(len(opsNew)-len(ops))) {
+				panic("address overflow:" + hex.EncodeToString(ops) + ", addr:" + hex.EncodeToString(addr[:addrLen]))
+			}
 			addr = make([]byte, 4)
 			LittleEndian.PutInt32(addr, (int32)(int8(val))+int32(add)-
 				int32(len(addr)-addrLen)-int32(len(opsNew)-len(ops))) // 新增了4个字节,需要减去
@@ -73,6 +76,9 @@ func EncodeAddress(ops []byte, addr []byte, addrLen int, val int, add int) []byt
 		}
 		panic("address overflow:" + hex.EncodeToString(ops) + ", addr:" + hex.EncodeToString(addr[:addrLen]))
 	case 4:
+		if isInt32Overflow(int64(val) + int64(add)) {
+			panic("address overflow:" + hex.EncodeToString(ops) + ", addr:" + hex.EncodeToString(addr[:addrLen]))
+		}
 		LittleEndian.PutInt32(addr, int32(val)+int32(add))
 		return toInst(ops, addr)
 	case 8:
@@ -134,7 +140,6 @@ func isInt16Overflow(v int32) bool {
 	return false
 }
 
-// nolint
 func isInt32Overflow(v int64) bool {
 	if v > 0 {
 		if v > math.MaxInt32 {
